@@ -53,7 +53,8 @@ let () =
       Printf.sprintf "%s %s %s %s %s %s %s st=%s,%s,%s,%s,%s,%s,%b cap=%s dd=%s nops=%d" (zstr r.r_consumed) (zstr r.r_produced) (zstr r.r_ret)
         (if r.r_fuel then "FUEL" else "ok") (if s'.d_oob then "OOB" else "ok") (stage_name s'.d_stage) (show_bytes r.r_out)
         (zstr (stage_num s'.d_stage)) (zstr s'.d_remaining) (zstr s'.d_tmpInSize) (zstr s'.d_tmpInTarget)
-        (zstr s'.d_maxBlock) (zstr s'.d_maxBuf) s'.d_skip (zstr s'.d_tmpInCap) (show_dd d') (List.length ops) in
+        (zstr s'.d_maxBlock) (zstr s'.d_maxBuf) s'.d_skip (zstr s'.d_tmpInCap) (show_dd d') (List.length ops)
+        ^ (if ops_okb s'.d_maxBuf (zs dstaddr) (Big_int_Z.add_big_int (zs dstaddr) (zs cap)) ops then " bounds=ok" else " bounds=BAD") in
   reg "dec" (function
     | [id; src; cap; dstnull; skip; usedict] ->
       incr fake;
